@@ -76,6 +76,15 @@ class Desugar:
     def thunk(self, forms):
         return [["lambda", []] + self.body(forms)]
 
+    def T(self, x):
+        """a test: its VALUE is taken first (bound by a one-parameter procedure), then tested - so the reference does not
+        depend on how the evaluator treats a conditional that stands directly in test position"""
+        e = self.d(x)
+        if isinstance(e, list) and e and e[0] in ("if",) or (isinstance(e, list) and e and isinstance(e[0], list)):
+            t = self.fresh()
+            return [["lambda", [t], t], e]
+        return e
+
     def d(self, x):
         if not isinstance(x, list) or not x:
             return x
@@ -91,7 +100,7 @@ class Desugar:
         if h == "set!":
             return ["set!", x[1], self.d(x[2])]
         if h == "if":
-            return ["if"] + self.body(x[1:])
+            return ["if", self.T(x[1])] + self.body(x[2:])
         if h == "begin":
             return self.thunk(x[1:])
         if h == "let":
@@ -116,16 +125,16 @@ class Desugar:
         if h == "and":
             if len(x) == 1: return "#t"
             if len(x) == 2: return self.d(x[1])
-            return ["if", self.d(x[1]), self.d(["and"] + x[2:]), "#f"]
+            return ["if", self.T(x[1]), self.d(["and"] + x[2:]), "#f"]
         if h == "or":
             if len(x) == 1: return "#f"
             if len(x) == 2: return self.d(x[1])
             t = self.fresh()
             return [["lambda", [t], ["if", t, t, self.d(["or"] + x[2:])]], self.d(x[1])]
         if h == "when":
-            return ["if", self.d(x[1]), self.thunk(x[2:])]
+            return ["if", self.T(x[1]), self.thunk(x[2:])]
         if h == "unless":
-            return ["if", self.d(x[1]), ["if", "#f", "#f"], self.thunk(x[2:])]
+            return ["if", self.T(x[1]), ["if", "#f", "#f"], self.thunk(x[2:])]
         if h == "cond":
             return self.cond(x[1:])
         if h == "case":
@@ -147,7 +156,7 @@ class Desugar:
                 return self.d(c[0])
             t = self.fresh()
             return [["lambda", [t], ["if", t, t, self.cond(rest)]], self.d(c[0])]
-        return ["if", self.d(c[0]), self.thunk(c[1:])] + ([self.cond(rest)] if rest else [])
+        return ["if", self.T(c[0]), self.thunk(c[1:])] + ([self.cond(rest)] if rest else [])
 
     def case(self, k, clauses):
         if not clauses:
